@@ -218,13 +218,19 @@ func H07RobustFilter() {
 			vndAssert(err != nil, "term-without-value-rejected")
 		}
 	}
-	nq := 0
+	// A single quote that starts a word (a quote inside a bare word or a
+	// regexp is an ordinary character) can never be terminated.
+	nq, slash, atStart := 0, false, false
 	for i := 0; i < len(text); i++ {
-		if text[i] == '"' {
+		switch text[i] {
+		case '"':
 			nq++
+			atStart = i == 0 || text[i-1] == ' ' || text[i-1] == '(' || text[i-1] == ':'
+		case '/':
+			slash = true
 		}
 	}
-	if nq == 1 {
+	if nq == 1 && atStart && !slash {
 		vndAssert(err != nil, "unterminated-quote-rejected")
 	}
 	// semantic rejection, judged on the parser's own tree
@@ -315,7 +321,11 @@ func H07Templates() {
 	var pp ProjectionParser
 	filter, _ := NewFilter("*")
 	_, err := pp.Parse("k@"+string(w), filter)
-	known := string(w) == "alpha" || string(w) == "num"
+	// "alpha" and "num" are the documented named orders; "first" is the name
+	// parse.Field documents for the default order and means exactly that.
+	// "fixed" names the parenthesised form and is not an order a user can
+	// write: accepted, it would stand for an empty fixed list.
+	known := string(w) == "alpha" || string(w) == "num" || string(w) == "first"
 	vndAssert((err == nil) == known, "only-documented-orders-accepted")
 	vndReach("h07:templates")
 	_, err = pp.Parse(".unit@"+string(w), filter)
